@@ -56,6 +56,7 @@ J10(T) == ("C10" \in Props /\ Ok(T)) =>
   /\ (~AutosomesDense(T) \/ T.nhaps = 1 \/ HomologuesShareNumber(T) \/ Say(T, "C10.homologues_share_number", T.cls))
   /\ (NameTagged(T) \/ Say(T, "C10.name_tagged", T.cls))
   /\ (UnlocNames(T) \/ Say(T, "C10.unloc_names", T.cls))
+  /\ (~UnlocNames(T) \/ UnlocsSortedBySize(T) \/ Say(T, "C10.unlocs_sorted_by_size", T.cls))
   /\ (HaplotigsNamedAndSorted(T) \/ Say(T, "C10.haplotigs_named_and_sorted", T.cls))
   /\ (~AutosomesDense(T) \/ OutputOrder(T) \/ Say(T, "C10.output_order", T.cls))
   /\ ((CsvPresent(T) /\ CsvMatches(T)) \/ Say(T, "C10.chromosome_csv", T.cls))
